@@ -36,11 +36,23 @@ def run(F, chk):
     ra = chk.rule("R-C17-a", "T5", "replace = add first, remove only after the add succeeded and if fingerprints differ", floor=1)
     rp = F.body(CR + "::replace_certificate")
     ra.fn(rp.path)
-    adds = [(bi, t) for bi, t in rp.calls() if callee_of(t) == CR + "::add_certificate"]
+    # "the add": add_certificate, or a private method of the resolver that (transitively) inserts into `certificates`
+    # (e.g. an infallible `store_certificate` half of add_certificate that replace_certificate calls directly)
+    inserters = {(b_.root if "{closure" in b_.path else b_.path) for b_, _, c_ in lib.field_mut_calls(F, CR, "certificates") if c_.endswith("::insert")}
+    for _ in range(2):
+        for q in list(inserters):
+            for cb_, _, _ in F.call_sites(q):
+                if cb_.path.startswith(CR + "::") and cb_.path not in (CR + "::replace_certificate",):
+                    inserters.add(cb_.root if "{closure" in cb_.path else cb_.path)
+    inserters.discard(CR + "::remove_certificate")
+    adds = [(bi, t) for bi, t in rp.calls() if callee_of(t) == CR + "::add_certificate" or callee_of(t) in inserters]
     rems = [(bi, t) for bi, t in rp.calls() if callee_of(t) == CR + "::remove_certificate"]
     if ra.require(len(adds) == 1 and rems, "replace_certificate: add_certificate / remove_certificate calls not found"):
         a = t2.T2(F, rp)
         ok_targets = a.cond_target(adds[0][0], adds[0][1], "ok")
+        addee = callee_of(adds[0][1])
+        if F.has(addee) and not F.body(addee).locals[0].startswith("core::result::Result"):
+            ok_targets = [adds[0][1]["to"]]        # an infallible add: it has succeeded once it returns
         for bi, t in rems:
             key = "%s|remove after Ok(add)" % rp.path
             cond1 = ok_targets is not None and ok_targets != [] and all(bi in rp.reach_from([x]) for x in ok_targets) and \
@@ -50,6 +62,18 @@ def run(F, chk):
                 if atom[0] != "call":
                     return False
                 fn = atom[2].get("fn", "")
+                # the same comparison wrapped in a combinator: `parsed_old.is_ok_and(|old| *old == new)` /
+                # `is_some_and(..)`: false means `not equal (or nothing to compare)`
+                if callee_of(atom[2]).endswith(("::is_ok_and", "::is_some_and")):
+                    for a_ in atom[2]["args"]:
+                        l_ = op_local(a_)
+                        d_ = rp.single_def(l_) if l_ is not None else None
+                        if d_ and d_[2] == "assign" and d_[3]["k"] == "agg" and d_[3].get("ak") == "closure" and F.has(d_[3]["clo"]):
+                            cb_ = F.body(d_[3]["clo"])
+                            if any((tt.get("fn") or "").endswith(("PartialEq::eq",)) and "Fingerprint" in (tt.get("recv") or tt.get("full") or "")
+                                   for _, tt in cb_.calls()):
+                                return truth is False
+                    return False
                 # the comparison must be made in the decoded domain (Fingerprint values), the same domain the
                 # removal key lives in; comparing hex strings distinguishes spellings of one fingerprint
                 if "Fingerprint" not in (atom[2].get("recv") or atom[2].get("full") or ""):
@@ -75,7 +99,7 @@ def run(F, chk):
     # ---------------- R-C17-b -------------------------------------------------
     rb = chk.rule("R-C17-b", "T4+T3", "resolver indices: closed writer set, all three touched together", floor=4)
     FIELDS = ("domains", "certificates", "name_fingerprint_idx")
-    ALLOWED = {"add_certificate", "remove_certificate", "new", "default"}
+    ALLOWED = {"add_certificate", "remove_certificate", "replace_certificate", "new", "default"}   # replace = add then remove
     touched = {}
     for fld in FIELDS:
         for b, bi, c in lib.field_mut_calls(F, CR, fld):
@@ -138,8 +162,15 @@ def run(F, chk):
                 sl = guards.slice_of_operand(mb, t["args"][0])
                 if any(f == "name_fingerprint_idx" for _, f in sl["fields"]) or any(x.endswith(("Entry", "::entry", "::get_mut", "::or_default", "OccupiedEntry::<'a, K, V, A>::get")) or "entry" in x.lower() for x in sl["callees"]):
                     picked.add({"last_mut": "last", "first_mut": "first", "pop": "last"}.get(nm, nm))
+        fams = [CR + "::" + m] + [x[0] for x in mb.inl]
+        for fq in fams:
+            for cp in F.family(fq)[1:]:
+                for _, tt in F.body(cp).calls():
+                    nm2 = callee_of(tt).rsplit("::", 1)[-1]
+                    if nm2 in ("last", "first", "last_mut", "first_mut") and "slice" in callee_of(tt):
+                        picked.add({"last_mut": "last", "first_mut": "first"}.get(nm2, nm2))
         desc = False
-        for cp in F.family(CR + "::" + m)[1:]:
+        for cp in [c2 for fq in fams for c2 in F.family(fq)[1:]]:
             cb = F.body(cp)
             if any(st.get("rv", {}).get("k") == "agg" and str(st["rv"].get("adt", "")).endswith("cmp::Reverse") for _, _, st in cb.stmts()):
                 desc = True
